@@ -8,5 +8,5 @@
                 //  with a 400-level error however it is framed or chunked"
                 &&& (r is Ok) == (!has_error(request.body.frames@) && total(sent) <= cap)
                 &&& (r is Ok ==> r->Ok_0.content.data@ == concat_all(sent))
-                &&& (r is Err ==> status_of(r->Err_0) == 400)
+                &&& (r is Err ==> is_client_code(status_of(r->Err_0)))
             }, // @buffered_extractor_uses_the_effective_limit_and_delivers_intact
